@@ -411,6 +411,14 @@ def c04(run):
     path, n = run.records(st)
     run.replay("tree", path, name="tree-c04comp")
     c04comp = path
+    # variables end with the template: the render sequences of MC_Det (assignments and reads of one name in
+    # consecutive renders without data; each step's success is fixed by the model)
+    std = run.tlc("MC_Det", text_cfg("all"), name="MC_Det", timeout=600, workers=1)
+    dpath, dn = run.records(std)
+    seqs = os.path.join(run.dir, "det-seq.ndjson")
+    with open(seqs, "w") as f:
+        f.writelines(l for l in open(dpath) if '"kind":"seq"' in l)
+    run.replay("det", seqs, name="det-seq", env={"TWH_REPEAT": "2"}, timeout_ms=20000)
     return eval_check(run, fams,
                       "assignments and reads of names x, y with values of six types before / inside / after each of 9 "
                       "block skeletons (flat, if, else, each, for, each-in-if, loops binding x itself) x 4 data maps "
